@@ -20,7 +20,7 @@ def plan(pid, tier):
     if pid in ("C01", "C02", "C04", "C06", "C07", "C09", "C12", "C13"):
         legs.append(hx_leg("SC32", features=("32_components",), props=[pid] + (["C01", "C02"] if pid == "C13" else []), **(dict(drop_world=True) if pid in ("C04", "C13") else {})))
     # whole-population sweeps at sizes straddling 2^16 and 2^20 (thorough: 2^24 too): index-width and size-threshold behaviour
-    if pid in ("C01", "C02", "C06", "C07", "C08", "C12", "C13"):
+    if pid in ("C01", "C02", "C04", "C06", "C07", "C08", "C12", "C13"):
         legs.append(hx_leg("POP", sizes=[65537, 1048577] + ([] if tier == "quick" else [16777216])))
     return legs
 
@@ -30,7 +30,9 @@ def _plan(pid, tier):
     if pid == "C01":
         return [hx_leg("SA", props=["C01"]), hx_leg("SB", props=["C01"]), hx_leg("SD", props=["C01"]), hx_leg("SP", props=["C01"]), hx_leg("SC", features=("wide",), props=["C01"])]
     if pid == "C02":
-        return [hx_leg("SA", props=["C02"], **(dict(L=3, D=8) if q else dict(L=4, D=10))), hx_leg("SB", props=["C02"], **(dict(D=6) if q else dict(D=8))), hx_leg("SC", features=("wide",), props=["C02"]), hx_leg("SP", props=["C02"])]
+        return [hx_leg("SA", props=["C02"], **(dict(L=3, D=8) if q else dict(L=4, D=10))), hx_leg("SB", props=["C02"], **(dict(D=6) if q else dict(D=8))), hx_leg("SC", features=("wide",), props=["C02"]), hx_leg("SP", props=["C02"]),
+                # "... or cloning the world never changes them": clone from every reachable state, both worlds read and written afterwards
+                hx_leg("SD", props=["C02"], **(dict(L=2, D=6) if q else dict(L=3, D=7)))]
     if pid == "C03":
         sa = dict(L=3, D=7) if q else dict(L=4, D=9)
         sb = dict(D=6) if q else dict(D=7)
